@@ -164,6 +164,9 @@ struct Pass {
     clock: ClockMode,
     /// the sink formats other values of the library from inside its own write calls
     reentrant_sink: bool,
+    /// the caller's sink (or serializer) panics in this write; afterwards the same call and a
+    /// fixed set of other calls are made again and must not panic
+    sink_panic_at: Option<usize>,
 }
 
 impl Pass {
@@ -174,9 +177,12 @@ impl Pass {
         then_refuse_alloc: None,
         clock: ClockMode::Normal,
         reentrant_sink: false,
+        sink_panic_at: None,
     };
     fn kind(&self) -> &'static str {
-        if self.reentrant_sink {
+        if self.sink_panic_at.is_some() {
+            "sink_panics"
+        } else if self.reentrant_sink {
             "reentrant_sink"
         } else if self.sink_fail_at.is_some() && self.then_refuse_alloc.is_some() {
             "sink_write_fail_then_alloc_refused_in_error_path"
@@ -200,6 +206,7 @@ impl Pass {
     }
     fn position(&self) -> u64 {
         self.sink_fail_at
+            .or(self.sink_panic_at)
             .map(|x| x as u64)
             .or(self.sink_capacity.map(|x| x as u64))
             .or(self.alloc_refuse.map(|x| x.0))
@@ -217,6 +224,7 @@ impl Pass {
             "alloc_refuse_persistent": self.alloc_refuse.map(|x| x.1),
             "then_refuse_next_alloc_persistent": self.then_refuse_alloc,
             "reentrant_sink": self.reentrant_sink,
+            "sink_panics_at_write": self.sink_panic_at,
             "clock": match self.clock {
                 ClockMode::Normal => json!("normal"),
                 ClockMode::Extreme(i) => json!({"extreme": i, "what": EXTREME_CLOCKS[i % EXTREME_CLOCKS.len()].3}),
@@ -232,6 +240,7 @@ impl Pass {
             alloc_refuse: u("alloc_refuse_request").map(|n| (n, v["alloc_refuse_persistent"].as_bool().unwrap_or(false))),
             then_refuse_alloc: v["then_refuse_next_alloc_persistent"].as_bool(),
             reentrant_sink: v["reentrant_sink"].as_bool().unwrap_or(false),
+            sink_panic_at: u("sink_panics_at_write").map(|x| x as usize),
             clock: if v["clock"] == json!("ticking") {
                 ClockMode::Ticking
             } else if let Some(i) = v["clock"]["extreme"].as_u64() {
@@ -260,6 +269,7 @@ fn run_pass(call: &Call, funcs: &Tables, vals: Option<&calls::Vals>, pass: &Pass
     set_clock_mode(pass.clock);
     let mut sink = FaultySink::new(pass.sink_fail_at, pass.sink_capacity, pass.then_refuse_alloc);
     sink.reentrant = pass.reentrant_sink;
+    sink.panic_at = pass.sink_panic_at;
     let r = std::panic::catch_unwind(std::panic::AssertUnwindSafe(|| {
         alloc::arm(pass.alloc_refuse.map(|x| x.0), pass.alloc_refuse.map(|x| x.1).unwrap_or(false));
         let o = calls::execute(call, funcs, vals, &mut sink);
@@ -280,6 +290,26 @@ fn run_pass(call: &Call, funcs: &Tables, vals: Option<&calls::Vals>, pass: &Pass
             clock_reads,
             sink_fired: sink.fired,
         },
+        Err(payload) if payload.is::<sink::InjectedSinkPanic>() => {
+            // the panic was the caller's own. The crate must still work: the same call again with
+            // an ordinary sink, then a fixed set of calls of every type.
+            let after = std::panic::catch_unwind(std::panic::AssertUnwindSafe(|| {
+                let mut plain = FaultySink::new(None, None, None);
+                let _ = calls::execute(call, funcs, vals, &mut plain);
+                aftermath_calls();
+            }));
+            PassResult {
+                outcome: if after.is_ok() { "caller-sink-panicked" } else { "panic" },
+                panicked: after.is_err(),
+                panic_msg: if after.is_err() { format!("after a panic inside the caller's sink had unwound through the crate, a later ordinary call panicked: {}", LAST_PANIC.with(|p| p.borrow().clone())) } else { String::new() },
+                writes: sink.writes,
+                bytes: sink.bytes,
+                allocs: a2,
+                refused: r2,
+                clock_reads,
+                sink_fired: sink.fired,
+            }
+        }
         Err(_) => PassResult {
             outcome: "panic",
             panicked: true,
@@ -291,6 +321,28 @@ fn run_pass(call: &Call, funcs: &Tables, vals: Option<&calls::Vals>, pass: &Pass
             clock_reads,
             sink_fired: sink.fired,
         },
+    }
+}
+
+/// Ordinary calls of every type made after a caller's sink panicked inside the crate.
+fn aftermath_calls() {
+    use serde::Serialize;
+    use std::fmt::Write as _;
+    let mut sink = CountSink(0);
+    if let Ok(f) = sqldatetime::Formatter::try_new("YYYY-MM-DD HH24:MI:SS.FF6 DAY MONTH") {
+        let _ = f.format(sqldatetime::Timestamp::MAX, &mut sink);
+    }
+    if let Ok(d) = sqldatetime::Date::MIN.format("DD MON YYYY") {
+        let _ = write!(sink, "{}", d);
+    }
+    let _ = sqldatetime::Date::parse("2020-02-29", "YYYY-MM-DD");
+    for human in [true, false] {
+        let _ = sqldatetime::Date::MAX.serialize(firstuse::SimSer::plain(human));
+        let _ = sqldatetime::Timestamp::MIN.serialize(firstuse::SimSer::plain(human));
+        let _ = sqldatetime::Time::ZERO.serialize(firstuse::SimSer::plain(human));
+        let _ = sqldatetime::IntervalYM::ZERO.serialize(firstuse::SimSer::plain(human));
+        let _ = sqldatetime::IntervalDT::ZERO.serialize(firstuse::SimSer::plain(human));
+        let _ = sqldatetime::OracleDate::MAX.serialize(firstuse::SimSer::plain(human));
     }
 }
 
@@ -307,6 +359,14 @@ fn enumerate_passes(w: usize, bytes: usize, a: u64, c: u64, rng: &mut Rng) -> Ve
     }
     for &i in &positions {
         v.push(Pass { sink_fail_at: Some(i), ..Pass::CONTROL });
+    }
+    if w > 0 {
+        // the caller's sink panics in its first, a middle and its last write
+        let mut pp = vec![0usize, w / 2, w - 1];
+        pp.dedup();
+        for i in pp {
+            v.push(Pass { sink_panic_at: Some(i), ..Pass::CONTROL });
+        }
     }
     if w > 0 {
         // a sink that re-enters the library while it is being written to; alone, and
@@ -347,7 +407,8 @@ fn enumerate_passes(w: usize, bytes: usize, a: u64, c: u64, rng: &mut Rng) -> Ve
 // worker
 // ---------------------------------------------------------------------------
 
-const FAULT_KINDS: [&str; 8] = [
+const FAULT_KINDS: [&str; 9] = [
+    "sink_panics",
     "reentrant_sink",
     "sink_write_fail",
     "sink_capacity",
@@ -433,7 +494,11 @@ fn probe_call(call: &Call, st: &mut WStats) {
 }
 
 fn worker(build: &str, seed: u64, n_calls: u64, index: u64, of: u64, trace: bool, only: Option<u64>, from: u64, until: u64) -> i32 {
+    // the process environment is a seam too: odd-numbered workers run with a seeded set of
+    // date/locale related variables, even-numbered ones with none of them
+    simcore::envswarm::install(&simcore::envswarm::plan(seed, index));
     let funcs = Tables::new();
+    std::hint::black_box(firstuse::warm_up_third_party());
     install_clock();
     let mut st = WStats::default();
     let mut idx = index;
@@ -619,6 +684,7 @@ fn exec_one(path: &str) -> i32 {
     };
     let pass = Pass::from_json(&v["pass"]);
     let funcs = Tables::new();
+    std::hint::black_box(firstuse::warm_up_third_party());
     install_clock();
     let vals = match &call {
         Call::Func { args, .. } | Call::Chain { args, .. } => args.vals(),
@@ -927,6 +993,7 @@ fn merge_num(into: &mut BTreeMap<String, u64>, v: &Value) {
 fn coordinator(tier: &str, calls_override: Option<u64>, out: &std::path::Path) -> i32 {
     let thorough = tier == "thorough";
     let seed = simcore::seed_from_env();
+    simcore::envswarm::install(&simcore::envswarm::baseline());
     println!("C03 simulation: VERIF_SEED={seed} tier={tier}");
     let t0 = simcore::real_monotonic_s();
     let n_calls: u64 = calls_override.unwrap_or(if thorough { 60_000_000 } else { 2_000_000 });
@@ -1052,7 +1119,10 @@ fn coordinator(tier: &str, calls_override: Option<u64>, out: &std::path::Path) -
                         let funcs = Tables::new();
                         let mut rng = Rng::for_run(seed, tag("C03-call"), idx);
                         let call = calls::gen_call(&mut rng, &funcs);
-                        match locate_pass(build, seed, n_calls, idx, pno, &scratch) {
+                        simcore::envswarm::install(&simcore::envswarm::plan(seed, k));
+                        let located = locate_pass(build, seed, n_calls, idx, pno, &scratch);
+                        simcore::envswarm::install(&simcore::envswarm::baseline());
+                        match located {
                             Some((pass, result)) => found.push((build.to_string(), idx, pno, call, pass, result)),
                             None => harness_errors.push(format!("worker crash at call {idx} pass {pno} ({build}) did not reproduce in a fresh process")),
                         }
@@ -1107,6 +1177,9 @@ fn coordinator(tier: &str, calls_override: Option<u64>, out: &std::path::Path) -
         exit = EXIT_VIOLATION;
     }
     for (build, idx, pno, call, pass, _result) in found.iter().take(12) {
+        // this process, and every process it starts, now runs in the environment of the worker
+        // that found the violation
+        simcore::envswarm::install(&simcore::envswarm::plan(seed, *idx % workers));
         let first = exec_in_fresh_process(build, call, pass, &scratch);
         let class = class_of(&first);
         if class == "ok" || class == "harness" {
@@ -1140,7 +1213,7 @@ fn coordinator(tier: &str, calls_override: Option<u64>, out: &std::path::Path) -
                     n_viol += 1;
                     let path = simcore::verif_root().join("replays").join(format!("C03-{}-{}-{}-history.json", seed, idx, build));
                     let body = json!({
-                        "property": PROPERTY, "kind": "history", "class": class_of(&r), "signature": sig, "build": build, "seed": seed,
+                        "property": PROPERTY, "kind": "history", "class": class_of(&r), "signature": sig, "build": build, "seed": seed, "env": simcore::envswarm::installed_json(),
                         "calls_total": n_calls, "of": workers, "from": from, "until": idx, "result": r,
                         "describe": format!("calls {}..={} with index % {} == {} generated from seed {}, every pass of each; the last one is {}", from, idx, workers, idx % workers, seed, call.describe()),
                         "call": call.to_json(), "pass": pass.to_json(),
@@ -1171,7 +1244,7 @@ fn coordinator(tier: &str, calls_override: Option<u64>, out: &std::path::Path) -
         n_viol += 1;
         let path = simcore::verif_root().join("replays").join(format!("C03-{}-{}-{}.json", seed, idx, build));
         let body = json!({
-            "property": PROPERTY, "class": class, "signature": sig, "build": build, "seed": seed, "call_index": idx,
+            "property": PROPERTY, "class": class, "signature": sig, "build": build, "seed": seed, "call_index": idx, "env": simcore::envswarm::installed_json(),
             "result": final_result, "describe": mc.describe(), "call": mc.to_json(), "pass": mp.to_json(),
         });
         if let Err(e) = simcore::evidence::write_json_atomic(&path, &body) {
@@ -1343,6 +1416,7 @@ fn locate_pass(build: &str, seed: u64, n_calls: u64, idx: u64, pno: u64, scratch
     // The pass list depends on the control pass; recompute it here in-process
     // (the control pass itself did not crash, or pno would be 0).
     let funcs = Tables::new();
+    std::hint::black_box(firstuse::warm_up_third_party());
     install_clock();
     let mut rng = Rng::for_run(seed, tag("C03-call"), idx);
     let call = calls::gen_call(&mut rng, &funcs);
@@ -1375,6 +1449,7 @@ fn locate_pass(build: &str, seed: u64, n_calls: u64, idx: u64, pno: u64, scratch
 
 fn list_passes(seed: u64, idx: u64) -> i32 {
     let funcs = Tables::new();
+    std::hint::black_box(firstuse::warm_up_third_party());
     install_clock();
     let mut rng = Rng::for_run(seed, tag("C03-call"), idx);
     let call = calls::gen_call(&mut rng, &funcs);
@@ -1401,6 +1476,8 @@ fn replay(path: &str) -> i32 {
         }
     };
     let build = v["build"].as_str().unwrap_or("relchk").to_string();
+    // the environment of the worker process that found it (children inherit it)
+    simcore::envswarm::install_from_json(&v["env"]);
     if v["kind"].as_str() == Some("miri") {
         return simcore::miri::replay(PROPERTY, "c03", "c03_threads", &v, path);
     }
